@@ -123,6 +123,9 @@ type SState struct {
 	DropSkipped map[string]bool   `json:"drop_skipped,omitempty"`  // "target|collection|shard" -> a resume dropped the drop message through the time filter of its seek
 	DownEvents  int               `json:"down_events,omitempty"`   // history events published while no incarnation was running
 	CatDropAt   map[string][2]int `json:"cat_drop_at,omitempty"`   // collection id -> (incarnation, step) at which the source catalog began to show it as dropping
+	PartialBar  map[string]bool   `json:"partial_bar,omitempty"`   // "target|partition id" -> the partition's barrier was sized while fewer than all shard streams of its collection were registered
+	PubAt       map[string][2]int `json:"pub_at,omitempty"`        // "p<partition id>" -> (incarnation, step) at which its drop message was published at the source
+	FirstReg    map[string][2]int `json:"first_reg,omitempty"`     // domain key -> (incarnation, step) of the first registration of that stream
 }
 
 // ------------------------------------------------------------------ rig
@@ -181,6 +184,7 @@ type RigS struct {
 	faultsAtStart      int
 	storeFaultsAtStart int
 	deletedAt          map[string]int
+	partDropMemo       map[int64]bool // partitions dropped at the source somewhere in the history
 	prevRaw            string         // the persisted content at the previous scheduler step
 	bgWriteStep        map[string]int // task -> step of the last write of its record made while no request on it was in flight
 }
@@ -442,6 +446,15 @@ func (r *RigS) loadState() {
 	if st.CatDropAt == nil {
 		st.CatDropAt = map[string][2]int{}
 	}
+	if st.PartialBar == nil {
+		st.PartialBar = map[string]bool{}
+	}
+	if st.PubAt == nil {
+		st.PubAt = map[string][2]int{}
+	}
+	if st.FirstReg == nil {
+		st.FirstReg = map[string][2]int{}
+	}
 	for len(st.DDLSeen) < 2 {
 		st.DDLSeen = append(st.DDLSeen, 0)
 	}
@@ -573,6 +586,12 @@ func (r *RigS) build() {
 		}
 	}
 	reader.VerifYield = func(point, ch string, coll int64) {
+		if point == "partition:handler" {
+			// the barrier of a partition has just been sized by the handlers that know its collection (hook H16, the id is
+			// the partition's): how many shard streams of the collection are registered on this downstream at this moment?
+			r.notePartitionBarrier(ch, coll)
+			return
+		}
 		if point != "pack:enqueue" || coll <= 0 {
 			return
 		}
@@ -676,6 +695,11 @@ func (r *RigS) applyHistory(h *HEvent) {
 			}
 		}
 		w.Apply(r.src)
+		if w.What == "part" && w.State == int(pb.PartitionState_PartitionDropping) {
+			if _, have := r.st.CatDropAt[fmt.Sprintf("p%d", w.Part)]; !have {
+				r.st.CatDropAt[fmt.Sprintf("p%d", w.Part)] = [2]int{r.plan.Incarnation, r.s.Step}
+			}
+		}
 		if w.What == "coll" && w.State == int(pb.CollectionState_CollectionDropping) {
 			if _, have := r.st.CatDropAt[fmt.Sprint(w.Coll)]; !have {
 				r.st.CatDropAt[fmt.Sprint(w.Coll)] = [2]int{r.plan.Incarnation, r.s.Step}
@@ -689,6 +713,13 @@ func (r *RigS) applyHistory(h *HEvent) {
 			es[i] = &c
 		}
 		r.mq.Append(h.PCh, es...)
+		for _, e := range es {
+			if e.Kind == "dropp" {
+				if _, have := r.st.PubAt[fmt.Sprintf("p%d", e.Part)]; !have {
+					r.st.PubAt[fmt.Sprintf("p%d", e.Part)] = [2]int{r.plan.Incarnation, r.s.Step}
+				}
+			}
+		}
 		r.s.Side("published %d message(s) on %s", len(es), h.PCh)
 	case "tick":
 		for i := 0; i < r.sc.Knobs.ChannelNum; i++ {
@@ -1061,6 +1092,38 @@ func (r *RigS) onAckData(tgt int, channel string, endSeq int, names []string) {
 	}
 }
 
+// notePartitionBarrier: see the hook in build().
+func (r *RigS) notePartitionBarrier(ch string, pid int64) {
+	tgt := -1
+	for i := range r.sdk {
+		if strings.HasPrefix(ch, r.sdk[i].TgtPrefix) {
+			tgt = i
+		}
+	}
+	if tgt < 0 {
+		return
+	}
+	for _, c := range r.sc.Colls {
+		for _, id := range c.Parts {
+			if id != pid {
+				continue
+			}
+			n := 0
+			for _, st := range r.mq.Streams() {
+				if st.Coll == c.ID && st.PCh != replicateChan && !st.Closed && r.targetOfStream(st) == tgt {
+					n++
+				}
+			}
+			if n < c.Shard {
+				r.mu.Lock()
+				r.st.PartialBar[fmt.Sprintf("%d|%d", tgt, pid)] = true
+				r.mu.Unlock()
+				r.s.Probe("S_partition_barrier_sized_early")
+			}
+		}
+	}
+}
+
 func (r *RigS) noteEnqueue(ch string, coll int64, endSeq int) {
 	tgt, shard := -1, -1
 	for i := range r.sdk {
@@ -1299,6 +1362,12 @@ func (r *RigS) run() {
 								for _, e := range dp.Entries {
 									if e.Kind == "dropc" && e.Coll == stt.Coll {
 										k := fmt.Sprintf("%d|%d|%d", tgt, stt.Coll, stt.Shard)
+										if _, seen := st.DropSeen[k]; !seen {
+											st.DropSeen[k] = [2]int{r.plan.Incarnation, s.Step}
+										}
+									}
+									if e.Kind == "dropp" && e.Coll == stt.Coll {
+										k := fmt.Sprintf("%d|%d|%d|p%d", tgt, stt.Coll, stt.Shard, e.Part)
 										if _, seen := st.DropSeen[k]; !seen {
 											st.DropSeen[k] = [2]int{r.plan.Incarnation, s.Step}
 										}
